@@ -22,6 +22,9 @@ class SegmentTimeline(DashElement):
         self.duration = 0
         for idx, seg in enumerate(timeline):
             t = seg.get('t')
+            if not self.attrs.check_not_none(
+                    seg.get('d'), msg='S@d is a mandatory attribute', clause='5.3.9.6.2'):
+                continue
             duration = int(seg.get('d'), 10)
             start = int(t, 10) if t is not None else start
             repeat = int(seg.get('r', '0')) + 1
